@@ -595,3 +595,182 @@ func describe(v ssa.Value) string {
 	}
 	return fmt.Sprintf("%s", v.Name())
 }
+
+// ---------------------------------------------------------------------------
+// returns (with defer-spilled results resolved)
+
+type retInfo struct {
+	Ret  *ssa.Return
+	Vals []ssa.Value
+}
+
+// returnsOf lists the reachable Return instructions of f with their result
+// values; a result that is a load of a result-spill local (functions with
+// defers) is resolved to the value stored last in the same block.
+func returnsOf(f *ssa.Function) []retInfo {
+	var out []retInfo
+	for _, b := range f.Blocks {
+		if len(b.Instrs) == 0 {
+			continue
+		}
+		ret, ok := b.Instrs[len(b.Instrs)-1].(*ssa.Return)
+		if !ok {
+			continue
+		}
+		if b != f.Blocks[0] && len(b.Preds) == 0 {
+			continue // recover block
+		}
+		ri := retInfo{Ret: ret}
+		for _, v := range ret.Results {
+			ri.Vals = append(ri.Vals, resolveLocalLoad(v))
+		}
+		out = append(out, ri)
+	}
+	return out
+}
+
+// resolveLocalLoad: if v is a load of a local Alloc and a store to that Alloc
+// precedes it in the same block, return the stored value.
+func resolveLocalLoad(v ssa.Value) ssa.Value {
+	ld, ok := v.(*ssa.UnOp)
+	if !ok || ld.Op != token.MUL {
+		return v
+	}
+	a, ok := ld.X.(*ssa.Alloc)
+	if !ok {
+		return v
+	}
+	b := ld.Block()
+	idx := instrIndex(ld)
+	for i := idx - 1; i >= 0; i-- {
+		if st, ok := b.Instrs[i].(*ssa.Store); ok && st.Addr == ssa.Value(a) {
+			return st.Val
+		}
+	}
+	return v
+}
+
+func isNilConst(v ssa.Value) bool {
+	c, ok := v.(*ssa.Const)
+	return ok && c.IsNil()
+}
+
+// structLitField returns the values stored into field `name` of a struct
+// allocated by `alloc` (composite literal or local), in any block.
+func storesToField(alloc ssa.Value, name string) []*ssa.Store {
+	var out []*ssa.Store
+	refs := alloc.Referrers()
+	if refs == nil {
+		return nil
+	}
+	for _, ref := range *refs {
+		fa, ok := ref.(*ssa.FieldAddr)
+		if !ok || fieldName(fa) != name {
+			continue
+		}
+		for _, r2 := range *fa.Referrers() {
+			if st, ok := r2.(*ssa.Store); ok && st.Addr == ssa.Value(fa) {
+				out = append(out, st)
+			}
+		}
+	}
+	return out
+}
+
+// problemStatus: v is a *models.ProblemDetails built by a composite literal in
+// this function; returns the constant Status stored into it.
+func problemStatus(v ssa.Value) (int64, bool) {
+	v = resolveLocalLoad(v)
+	a, ok := v.(*ssa.Alloc)
+	if !ok {
+		return 0, false
+	}
+	if !typeIs(a.Type(), "github.com/free5gc/openapi/models", "ProblemDetails") {
+		return 0, false
+	}
+	sts := storesToField(a, "Status")
+	if len(sts) != 1 {
+		return 0, false
+	}
+	return constInt(sts[0].Val)
+}
+
+// paramAlloc: the local Alloc a struct parameter is spilled into (go/ssa
+// keeps address-taken parameters in memory), or nil.
+func paramAlloc(p *ssa.Parameter) *ssa.Alloc {
+	refs := p.Referrers()
+	if refs == nil {
+		return nil
+	}
+	for _, ref := range *refs {
+		if st, ok := ref.(*ssa.Store); ok && st.Val == ssa.Value(p) {
+			if a, ok := st.Addr.(*ssa.Alloc); ok {
+				return a
+			}
+		}
+	}
+	return nil
+}
+
+// paramByName returns the parameter of f with the given name.
+func paramByName(f *ssa.Function, name string) *ssa.Parameter {
+	for _, p := range f.Params {
+		if p.Name() == name {
+			return p
+		}
+	}
+	return nil
+}
+
+// isParamFieldLoad: v == param.<field> (through the spill Alloc or a Field instr).
+func isParamFieldLoad(v ssa.Value, p *ssa.Parameter, field string) bool {
+	v = stripConv(v)
+	switch x := v.(type) {
+	case *ssa.UnOp:
+		if x.Op != token.MUL {
+			return false
+		}
+		fa, ok := x.X.(*ssa.FieldAddr)
+		if !ok || fieldName(fa) != field {
+			return false
+		}
+		if a, ok := fa.X.(*ssa.Alloc); ok && a == paramAlloc(p) {
+			return true
+		}
+		return fa.X == ssa.Value(p)
+	case *ssa.Field:
+		st, _ := x.X.Type().Underlying().(*types.Struct)
+		if st == nil || st.Field(x.Field).Name() != field {
+			return false
+		}
+		if x.X == ssa.Value(p) {
+			return true
+		}
+		// load of the whole spilled struct
+		if ld, ok := x.X.(*ssa.UnOp); ok && ld.Op == token.MUL {
+			if a, ok := ld.X.(*ssa.Alloc); ok && a == paramAlloc(p) {
+				return true
+			}
+		}
+	}
+	return false
+}
+
+// inCycle reports whether block b lies on a CFG cycle.
+func inCycle(b *ssa.BasicBlock) bool {
+	seen := map[*ssa.BasicBlock]bool{}
+	stack := append([]*ssa.BasicBlock{}, b.Succs...)
+	for len(stack) > 0 {
+		x := stack[len(stack)-1]
+		stack = stack[:len(stack)-1]
+		if x == b {
+			return true
+		}
+		if seen[x] {
+			continue
+		}
+		seen[x] = true
+		stack = append(stack, x.Succs...)
+	}
+	return false
+}
